@@ -1067,6 +1067,11 @@ N('davidson-extension-full-pivoting', 'C15',
 N('davidson-correction-count-from-ritz-values', 'C15',
   [('DavidsonSymEigsSolver.h', "Index(residues.cols()));", "Index(eigvals.size()));")], 'same count from the other array')
 
+# ----------------------------------------------------------------------------- K6
+N('buckling-pole-guarded', 'C13',
+  [('SymGEigsShiftSolver.h', "        m_ritz_val.head(m_nev).array() = m_sigma * m_ritz_val.head(m_nev).array() /\n            (m_ritz_val.head(m_nev).array() - Scalar(1));",
+    "        m_ritz_val.head(m_nev).array() = (m_ritz_val.head(m_nev).array() == Scalar(1)).select((std::numeric_limits<Scalar>::max)(), m_sigma * m_ritz_val.head(m_nev).array() /\n            (m_ritz_val.head(m_nev).array() - Scalar(1)));")], 'one possible design decision for K6 (largest finite value): the rule is silent on it, no KNOWN-FINDING line')
+
 # ----------------------------------------------------------------------------- F47
 M('arnoldi-init-overflowed-norm-not-handled', 'C13,C01', 'division-by-norm-guarded',
   [('LinAlg/Arnoldi.h', "        if (!(std::isfinite)(vnorm))\n        {\n            v /= v.cwiseAbs().maxCoeff();\n            vnorm = m_op.norm(v);\n        }\n", "")], 'reverts fix F47')
